@@ -717,11 +717,80 @@ def extract_decoder(ctx, src):
     return DecoderSpec(handlers, table), esc_node
 
 
+class EvaluatedEncoder:
+    """TokString.code evaluated on concrete strings (absint/cx.py) when the
+    transducer extraction cannot read the re-spelling loop.  Same interface as
+    the extracted encoder; since nothing is known about which bytes look at
+    their right context, the caller enumerates a reduced set of remainders
+    and a clean result is NOT a proof (reported as undecided), a failing case
+    is a witness."""
+
+    evaluated = True
+
+    def __init__(self, ctx, quote):
+        from ..absint import cx as CX
+        self.CX = CX
+        self.cx = CX.Cx(ctx.model, ctx.consts)
+        self.cls = ctx.model.cls(LX + ':TokString')
+        self.quote = quote
+        self.prefix = self.suffix = quote
+        self.conds = []
+        self.cache = {}
+        probe = self._code(b'a')
+        if not (probe.startswith(quote) and probe.endswith(quote) and
+                len(probe) >= 2):
+            self.prefix, self.suffix = probe[:1], probe[-1:]
+
+    def _code(self, data):
+        CX = self.CX
+        cxi = self.cx
+
+        def go():
+            o = CX.Obj(self.cls)
+            o.attrs['_data'] = data
+            o.attrs['_quote'] = self.quote
+            o.attrs['_multiline_quote'] = None
+            o.attrs['_lineno'] = o.attrs['_charno'] = 0
+            return cxi.getattr(o, 'code')
+        paths = cxi.explore(go)
+        if len(paths) != 1 or paths[0][0]:
+            raise AnalysisError('encoder evaluation forks on concrete data')
+        kind, val = paths[0][1]
+        if kind == 'raise':
+            raise AnalysisError('TokString.code raises {} on {!r}'.format(
+                val.tname, data))
+        if isinstance(val, CX.Seq):
+            if any(CX.is_sym(x) for x in val.items):
+                raise AnalysisError('symbolic spelling')
+            val = bytes(val.items)
+        if not isinstance(val, (bytes, bytearray)):
+            raise AnalysisError('TokString.code returns ' +
+                                type(val).__name__)
+        return bytes(val)
+
+    def encode(self, want):
+        if want not in self.cache:
+            code = self._code(want)
+            self.cache[want] = code[len(self.prefix):len(code) -
+                                    len(self.suffix)]
+        return self.cache[want]
+
+    def context_dependent(self, c):
+        return False
+
+
 def rule_escapes(ctx, res, src):
+    evaluated = False
     try:
         encs = {}
-        for q in (b'"', b"'"):
-            f_enc, encs[q] = extract_encoder(ctx, q)
+        try:
+            for q in (b'"', b"'"):
+                f_enc, encs[q] = extract_encoder(ctx, q)
+        except AnalysisError as e:
+            why = str(e)
+            f_enc = ctx.model.func(LX + ':TokString.code')
+            encs = {q: EvaluatedEncoder(ctx, q) for q in (b'"', b"'")}
+            evaluated = True
         dec, esc_if = extract_decoder(ctx, src)
     except AnalysisError as e:
         res.undecided('R-C06-escapes', LX + ':TokString.code', 'extraction',
@@ -734,6 +803,8 @@ def rule_escapes(ctx, res, src):
     res.tables['decoder_handlers'] = [h[0] for h in dec.handlers] + ['table']
     res.tables['encoder_context_conditions'] = sorted(
         {cd.text for e in encs.values() for cd in e.conds})
+    table_bytes = sorted({k[0] for k in rev if isinstance(k, bytes) and
+                          len(k) == 1}) if isinstance(rev, dict) else []
     for q, enc in sorted(encs.items()):
         res.check(enc.prefix == q and enc.suffix == q, 'R-C06-escapes', where,
                   'text wrapped in its own quote ({})'.format(q.decode()),
@@ -748,9 +819,20 @@ def rule_escapes(ctx, res, src):
         reps = sorted({b for b in b'0123456789az \n\\\x00\xff' + q} |
                       set(ctxdep))
         res.stats['context_dependent_bytes'] = len(ctxdep)
+        if evaluated:
+            reps = sorted({b for b in b'019af \n\\\x00' + q})
         for c in range(256):
             rests = [b''] + [bytes([x]) for x in range(256)]
-            if c in ctxdep:
+            if evaluated:
+                # reduced enumeration (every case is one evaluation): the
+                # representatives after every byte, two- and three-byte
+                # remainders after the bytes of the escape table
+                rests = [b''] + [bytes([x]) for x in reps]
+                if c in table_bytes or c == q[0] or c == 0x5c:
+                    rests += [bytes([x, y]) for x in reps for y in reps]
+                    rests += [bytes([x, y, z]) for x in b'01a' + q
+                              for y in b'09a\x00' for z in b'0a' + q]
+            elif c in ctxdep:
                 # the condition may look further than one byte: two-byte
                 # remainders (every next byte x representative third byte) and
                 # three-byte remainders over the representatives
@@ -774,6 +856,11 @@ def rule_escapes(ctx, res, src):
                     if old is None or len(old[3]) > len(want):
                         bad[key] = (q, c, nxt, want, text, got)
     res.stats['escape_roundtrip_cases'] = n
+    # a witness whose proper suffix already fails says nothing about its
+    # first byte
+    failing = {v[3] for v in bad.values()}
+    bad = {k: v for k, v in bad.items()
+           if not any(v[3][j:] in failing for j in range(1, len(v[3])))}
     by_byte = {}
     for (c, ctxk), v in bad.items():
         by_byte.setdefault(c, []).append((ctxk, v))
@@ -785,8 +872,15 @@ def rule_escapes(ctx, res, src):
                 c, ','.join(sorted(k for (k, _v) in lst))),
             'string {!r} is re-spelled {!r}, which decodes to {!r}: the '
             'rewritten literal denotes a different string'.format(
-                want, q + text, got), f_enc.loc)
-    if not bad:
+                want, q + text, got), f_enc.loc, semantic=True)
+    if not bad and evaluated:
+        res.undecided('R-C06-escapes', where,
+                      'decode(encode(b)) == b in every right context',
+                      'the re-spelling loop is outside the transducer model '
+                      '({}); {} evaluated cases round-trip, which bounds but '
+                      'does not decide the clause'.format(why[:80], n),
+                      f_enc.loc)
+    elif not bad:
         res.holds('R-C06-escapes', where,
                   'decode(encode(b)) == b in every right context',
                   '{} (byte, remainder, quote) cases: every byte x every '
